@@ -17,9 +17,9 @@ MANIFEST = {
     "technique": "Lean 4 proof (induction over the token list / statement list) + differential correspondence + parser-based classification oracle",
 }
 
-RULE = ("fixed scripts + a seed-dependent sample of the repo's .xgo/.gop/.gox/.data files (all in thorough) + generated scripts: 0-10 chunks drawn "
+RULE = ("regression inputs in corpus/C24 first + fixed scripts + a seed-dependent sample of the repo's .xgo/.gop/.gox/.data files (all in thorough) + generated scripts: 0-10 chunks drawn "
         "from declarations, function/method/overload declarations, statements incl. function literals with/without results, comments (line, block, "
-        "#, between func and '('), unbalanced braces, token soup; separators newline/;/CRLF/none. Non-trivial = distinct script in which the "
+        "#, between func and '('), unbalanced braces, token soup; 30% of the chunks additionally get 1-2 comments inserted at random token boundaries (taken from the real scanner); separators newline/;/CRLF/none. Non-trivial = distinct script in which the "
         "rearrangement moves at least one chunk")
 
 
@@ -40,7 +40,7 @@ def run(ctx):
         "sources on which the real scanner itself panics are outside C24 (they are C15's subject) and are only counted",
         "format.Source is deterministic (the SourceEx clause compares three separate calls)",
     ]
-    common.standard(ctx, "GopModel.Props.C24", "c24", 700, 40000, RULE, driver="drv_pureb", post=post)
+    common.standard(ctx, "GopModel.Props.C24", "c24", 600, 40000, RULE, driver="drv_pureb", post=post)
 
 
 def replay(ctx, obj):
